@@ -555,11 +555,137 @@ fn offer(s: &mut Suite, origin: &str, der: &[u8], tie_model: bool) -> Option<Cer
 		// answers CouldNotParseCertificationRequest) the third-party parser may still hand rcgen
 		// something it refuses for a reason of its own: both refuse, the kind is not compared
 		let both_refuse = both_refuse || (model == "(err CouldNotParseCertificationRequest)" && real.starts_with("(err "));
-		if model != real && !both_refuse {
+		// ... and where the third-party parser *takes* what the strict decoder cannot read — an
+		// extended-key-usage value in a BER length form — the model has no answer to compare; what
+		// is issued from such a request is judged by the tolerant reader in `issue_and_check`
+		let third_party_lenient = model == "(err CouldNotParseCertificationRequest)" && real.starts_with("(ok") && requested_eku_not_der(der);
+		if third_party_lenient {
+			s.rep.count("accepted_in_a_ber_form_the_strict_decoder_refuses");
+		}
+		if model != real && !both_refuse && !third_party_lenient {
 			s.rep.disagree("C06:parse-csr", "model and implementation differ on CSR parsing", format!("request: {}\nreal:  {}\nmodel: {}", line, real, model));
 		}
 	}
 	parsed
+}
+
+/// (extension identifier content, extnValue content) of every extension under `exts`
+/// (a SEQUENCE OF Extension), any definite length form
+fn walk_extensions(exts: &crate::der::Tlv) -> Option<Vec<(Vec<u8>, Vec<u8>)>> {
+	let mut out = Vec::new();
+	for e in crate::der::children(exts.content)? {
+		let k = crate::der::children(e.content)?;
+		let (o, v) = match k.len() {
+			2 => (&k[0], &k[1]),
+			3 => (&k[0], &k[2]),
+			_ => return None,
+		};
+		if o.tag != 0x06 || v.tag != 0x04 {
+			return None;
+		}
+		out.push((o.content.to_vec(), v.content.to_vec()));
+	}
+	Some(out)
+}
+
+/// does the request carry an extended-key-usage value that is one SEQUENCE of OIDs but not in
+/// DER (a longer length form than needed)?
+fn requested_eku_not_der(csr: &[u8]) -> bool {
+	use crate::der::{children, read_tlv};
+	let inner = || -> Option<bool> {
+		let (outer, _) = read_tlv(csr)?;
+		let info = children(children(outer.content)?.first()?.content)?;
+		let attrs = info.get(3).filter(|a| a.tag == 0xa0)?;
+		for a in children(attrs.content)? {
+			let k = children(a.content)?;
+			if k.len() != 2 {
+				continue;
+			}
+			for set_member in children(k[1].content)? {
+				for (o, v) in walk_extensions(&set_member)? {
+					if o == [0x55, 0x1d, 0x25] {
+						let k = children(&v)?;
+						if k.len() == 1 && k[0].tag == 0x30 {
+							let kids = children(k[0].content)?;
+							if kids.iter().all(|t| t.tag == 0x06) {
+								let body: Vec<u8> = kids.iter().flat_map(|t| tlv(0x06, t.content)).collect();
+								if tlv(0x30, &body) != v {
+									return Some(true);
+								}
+							}
+						}
+					}
+				}
+			}
+		}
+		Some(false)
+	};
+	inner().unwrap_or(false)
+}
+
+/// where the specification's strict decoder cannot read a request the third-party parser takes
+/// (BER length forms inside an extension value, octets after its first element), the question
+/// "carried over whole, or refused" is put with a reader that tolerates the length forms and
+/// reports *everything* that is there: extended key usages as the set of purposes in a value that
+/// is one SEQUENCE of OIDs and nothing else; key usages and alternative names byte for byte
+/// (rcgen's own rule for them); anything else cannot be carried
+fn lenient_issue_check(csr: &[u8], cert: &[u8]) -> Option<Vec<String>> {
+	use crate::der::{children, read_tlv};
+	let (outer, _) = read_tlv(csr)?;
+	let info = children(children(outer.content)?.first()?.content)?;
+	let attrs = info.get(3).filter(|a| a.tag == 0xa0)?;
+	let mut requested: Vec<(Vec<u8>, Vec<u8>)> = Vec::new();
+	for a in children(attrs.content)? {
+		let k = children(a.content)?;
+		if k.len() != 2 || k[0].content != [0x2a, 0x86, 0x48, 0x86, 0xf7, 0x0d, 0x01, 0x09, 0x0e] {
+			continue;
+		}
+		for set_member in children(k[1].content)? {
+			requested.extend(walk_extensions(&set_member)?);
+		}
+	}
+	let (couter, _) = read_tlv(cert)?;
+	let tbs = children(children(couter.content)?.first()?.content)?;
+	let issued = match tbs.iter().find(|t| t.tag == 0xa3) {
+		Some(x) => walk_extensions(children(x.content)?.first()?)?,
+		None => vec![],
+	};
+	let of = |l: &Vec<(Vec<u8>, Vec<u8>)>, o: &[u8]| l.iter().filter(|(i, _)| i == o).map(|(_, v)| v.clone()).collect::<Vec<_>>();
+	let purposes = |vals: &Vec<Vec<u8>>| -> Option<Vec<Vec<u8>>> {
+		let mut out = Vec::new();
+		for v in vals {
+			let k = children(v)?;
+			if k.len() != 1 || k[0].tag != 0x30 {
+				return None;
+			}
+			for o in children(k[0].content)? {
+				if o.tag != 0x06 {
+					return None;
+				}
+				out.push(o.content.to_vec());
+			}
+		}
+		out.sort();
+		out.dedup();
+		Some(out)
+	};
+	let mut fails = Vec::new();
+	let (ku, san, eku) = ([0x55u8, 0x1d, 0x0f], [0x55u8, 0x1d, 0x11], [0x55u8, 0x1d, 0x25]);
+	if of(&requested, &ku) != of(&issued, &ku) {
+		fails.push("C06:issued-key-usage-equals-requested".to_string());
+	}
+	if of(&requested, &san) != of(&issued, &san) {
+		fails.push("C06:issued-san-equals-requested".to_string());
+	}
+	match (purposes(&of(&requested, &eku)), purposes(&of(&issued, &eku))) {
+		(Some(r), Some(i)) if r == i => {},
+		(None, _) => fails.push("C06:unsupported-request-accepted".to_string()),
+		_ => fails.push("C06:issued-eku-equals-requested".to_string()),
+	}
+	if requested.iter().any(|(o, _)| o != &ku && o != &san && o != &eku) {
+		fails.push("C06:unsupported-request-accepted".to_string());
+	}
+	Some(fails)
 }
 
 /// issue from an accepted request and check what the certificate carries
@@ -605,7 +731,15 @@ fn issue_and_check(s: &mut Suite, origin: &str, der: &[u8], parsed: CertificateS
 	let line = format!("spec-csr-issue {} {}", hex(der), hex(cert.der()));
 	let resp = s.drv.ask(&line);
 	s.rep.count("issued_vs_request_compared");
-	for clause in Suite::parse_fail_pub(&resp) {
+	let mut clauses: Vec<String> = Suite::parse_fail_pub(&resp);
+	if clauses.iter().any(|c| c == "C06:extension-request-decodes") {
+		// not DER inside the extension request, yet taken by the third-party parser: the tolerant reader decides
+		if let Some(l) = lenient_issue_check(der, cert.der()) {
+			s.rep.count("issued_vs_request_compared_by_tolerant_reader");
+			clauses = l.into_iter().map(|c| format!("{}:tolerant-reader", c)).collect();
+		}
+	}
+	for clause in clauses {
 		if clause.starts_with("C06:") {
 			let class = origin.split(':').next().unwrap_or(origin);
 			s.rep.violate(&format!("{}:{}", clause, class), "the certificate issued from an accepted request does not carry exactly what the request asks for", format!("origin={}\ncsr={}\ncert={}\nspec-answer: {}", origin, hex(der), hex(cert.der()), resp));
